@@ -187,13 +187,30 @@ pub fn c02_clean_handoff(cx: &mut Ctx) {
         let mut prev_owner: Option<u32> = None;
         let mut prev_stop_abnormal = false;
         for u in &conn.units {
-            let cl = unit_clients(u);
-            if cl.is_empty() || is_pooler_prepare_unit(u) {
+            if u.tags.is_empty() || is_pooler_prepare_unit(u) {
                 continue;
             }
-            let c = cl[0];
+            // clients in order of appearance inside the unit
+            let mut order: Vec<u32> = Vec::new();
+            for t in &u.tags {
+                if order.last() != Some(&t.c) {
+                    order.push(t.c);
+                }
+            }
+            if order.len() > 1 {
+                // a second client's message arrived before the previous request got its
+                // ReadyForQuery: the connection changed hands mid-request (COPY IN, unread reply)
+                let p = order[0];
+                let stop = stop_kind(h, p);
+                let copy = u.in_types.iter().any(|t| *t == b'd') || String::from_utf8_lossy(&u.in_bytes).to_ascii_uppercase().contains("COPY");
+                let fp = if copy { "C02/handoff_in_copy" } else { "C02/handoff_mid_request" };
+                cx.probe("c02_handoff");
+                cx.v("C02", "handoff_mid_request", &format!("{}/prev_stop={}", fp, stop), u.first_seq, format!("backend conn {} (pid {}): client {}'s message reached the server while client {}'s request was still pending (no ReadyForQuery yet; copy: {}); previous owner stopped: {}", ci, conn.pid, order[1], p, copy, stop));
+            }
+            let c = order[0];
+            let last_c = *order.last().unwrap();
             if is_attacker_tag(c) {
-                prev_owner = Some(c);
+                prev_owner = Some(last_c);
                 continue;
             }
             if let Some(p) = prev_owner {
@@ -235,7 +252,7 @@ pub fn c02_clean_handoff(cx: &mut Ctx) {
                     }
                 }
             }
-            prev_owner = Some(c);
+            prev_owner = Some(last_c);
         }
         let _ = prev_stop_abnormal;
     }
@@ -593,7 +610,9 @@ pub fn c12_params(cx: &mut Ctx) {
                         };
                         let got = e.rec.snap.gucs.get(k).cloned().unwrap_or_default();
                         if &got != want {
-                            let class = value_class(want);
+                            // cause class: a quote in *any* tracked value breaks the whole sync message
+                            let any_quote = TRACKED.iter().any(|t| expect.get(*t).map(|v| v.contains('\'')).unwrap_or(false));
+                            let class = if any_quote { "value_has_quote" } else { value_class(want) };
                             cx.v("C12", "guc_mismatch", &format!("C12/guc_mismatch/{}/{}", k, class), e.rec.seq, format!("client {} step {} ({}): backend pid {} had {}={:?} but the client established {:?}", c.id, s.idx, e.rec.tags.first().map(|t| t.to_string()).unwrap_or_default(), h.backend_conns[e.conn].pid, k, got, want));
                         } else if want != &default_of(k) {
                             cx.probe("c12_nondefault_value_checked");
